@@ -54,6 +54,15 @@ impl<const PAD: usize> Decode for TrackedP<PAD> {
 			})),
 		}
 	}
+	/// The padded variant also tells the truth about its encoded size (one byte): code that takes
+	/// a different route for fixed-size elements must release elements just the same.
+	fn encoded_fixed_size() -> Option<usize> {
+		if PAD == 0 {
+			None
+		} else {
+			Some(1)
+		}
+	}
 }
 impl<const PAD: usize> DecodeWithMemTracking for TrackedP<PAD> {}
 impl<const PAD: usize> PartialEq for TrackedP<PAD> {
@@ -76,6 +85,56 @@ impl<const PAD: usize> Ord for TrackedP<PAD> {
 #[derive(Decode)]
 #[repr(transparent)]
 pub struct TransparentArr<const N: usize>(pub [Tracked; N]);
+/// A zero-sized marker with a one-byte encoding whose decoder can fail (or panic: byte 0xfe).
+pub struct FailMarker;
+impl Decode for FailMarker {
+	fn decode<I: Input>(input: &mut I) -> Result<Self, Error> {
+		match input.read_byte()? {
+			9 => Ok(FailMarker),
+			0xfe => panic!("marker decoder panics"),
+			_ => Err("bad marker".into()),
+		}
+	}
+}
+/// payload first, fallible zero-sized field after it: the derived in-place `decode_into` decodes
+/// them one after the other into the same memory
+#[derive(Decode)]
+#[repr(transparent)]
+pub struct TransThenMarker(pub Tracked, pub FailMarker);
+#[derive(Decode)]
+#[repr(transparent)]
+pub struct TransArrThenMarker(pub [Tracked; 3], pub FailMarker, pub core::marker::PhantomData<u8>);
+
+/// Fields decoded in place before a LATER zero-sized field fails must be dropped (finding F6).
+fn trailing_marker_cases(ctx: &mut Ctx) {
+	for (what, tail) in [("rejected", &[7u8][..]), ("missing", &[][..]), ("panics", &[0xfe][..]), ("accepted", &[9][..])] {
+		let elems = if what == "accepted" { 1 } else { 0 };
+		macro_rules! one {
+			($label:expr, $t:ty, $payload:expr, $n:expr, $model:expr) => {{
+				let mut bs: Vec<u8> = $payload.to_vec();
+				bs.extend_from_slice(tail);
+				let (summary, problems) = observe(|| <$t>::decode(&mut &bs[..]), if elems == 1 { $n } else { 0 });
+				for p in problems {
+					ctx.oracle_fail("C10", format!("{} with the trailing marker {}: {}", $label, what, p));
+				}
+				ctx.count("ledger:cases", 1);
+				// the model's in-place decoder of a transparent struct: payload = field 0, marker = field 1
+				if let (Some(ms), true) = ($model, what != "accepted") {
+					let ms: &str = ms;
+					ctx.emit("ledger", $label, &format!("ledger {} 2 1 {}", ms, if what == "panics" { "panic" } else { "err" }), &summary);
+				}
+			}};
+		}
+		one!("TransThenMarker", TransThenMarker, [5u8], 1, None::<&str>);
+		one!("Box<TransThenMarker>", Box<TransThenMarker>, [5u8], 1, Some("boxtransparent"));
+		one!("Rc<TransThenMarker>", Rc<TransThenMarker>, [5u8], 1, Some("boxtransparent"));
+		one!("Arc<TransThenMarker>", Arc<TransThenMarker>, [5u8], 1, Some("boxtransparent"));
+		one!("Box<TransArrThenMarker>", Box<TransArrThenMarker>, [5u8, 6, 7], 3, None::<&str>);
+		one!("[TransThenMarker; 2] (second)", [TransThenMarker; 2], [5u8, 9, 6], 2, None::<&str>);
+		one!("Vec<Box<TransThenMarker>> (second)", Vec<Box<TransThenMarker>>, [2u8 << 2, 5, 9, 6], 2, None::<&str>);
+	}
+}
+
 #[derive(Decode)]
 pub struct Composite {
 	pub a: Tracked,
@@ -222,6 +281,11 @@ fn arrays<const N: usize>(ctx: &mut Ctx) {
 	grid!(ctx, "TransparentArr<N>", Some("array"), N, &[], |bs: &[u8]| <TransparentArr<N>>::decode(&mut &bs[..]));
 	grid!(ctx, "Box<TransparentArr<N>>", Some("boxarray"), N, &[], |bs: &[u8]| <Box<TransparentArr<N>>>::decode(&mut &bs[..]));
 	grid!(ctx, "[Box<Tracked>; N]", Some("array"), N, &[], |bs: &[u8]| <[Box<Tracked>; N]>::decode(&mut &bs[..]));
+	// elements that report `encoded_fixed_size() == Some(1)` (and are 1 KiB in memory)
+	if N <= 8 {
+		grid!(ctx, "Box<[TrackedBig; N]>", Some("boxarray"), N, &[], |bs: &[u8]| <Box<[TrackedBig; N]>>::decode(&mut &bs[..]));
+		grid!(ctx, "Box<[[TrackedBig; 2]; N]>", None, 2 * N, &[], |bs: &[u8]| <Box<[[TrackedBig; 2]; N]>>::decode(&mut &bs[..]));
+	}
 	grid!(ctx, "[[Tracked; 2]; N]", None, 2 * N, &[], |bs: &[u8]| <[[Tracked; 2]; N]>::decode(&mut &bs[..]));
 	grid!(ctx, "[Option<Tracked>; N] (all Some)", None, N, &[], |bs: &[u8]| {
 		// interleave the `Some` tags
@@ -420,6 +484,7 @@ pub fn ledger_stream(ctx: &mut Ctx) {
 		collections(ctx, n);
 	}
 	holders_under_depth_limit(ctx);
+	trailing_marker_cases(ctx);
 	// Option / Result / tuples / derived types: fixed shapes, failure at every element position
 	grid!(ctx, "Option<Tracked> (Some)", None, 1, &[1], |bs: &[u8]| <Option<Tracked>>::decode(&mut &bs[..]));
 	grid!(ctx, "Result<Tracked, Tracked> (Err)", None, 1, &[1], |bs: &[u8]| <Result<Tracked, Tracked>>::decode(&mut &bs[..]));
